@@ -10,7 +10,7 @@ def run(ctx):
     # 1. design level: ChainIndex.tla with blocks entering only through AcceptBlock (admission decided through the two
     #    code paths of HasTransaction, RECENT = 3, one filter-prefix collision, a dependency, short windows):
     #    NoDupOnChain, WindowOk, DepsOk, LookupAgrees on every chain of every tree
-    cfgs = ["adm_quick", "adm_quick2"] if q else ["adm_thorough_a", "adm_thorough_b", "adm_thorough_c", "adm_thorough_d"]
+    cfgs = ["adm_quick"] if q else ["adm_quick2", "adm_thorough_a", "adm_thorough_b", "adm_thorough_c", "adm_thorough_d"]
     for c in cfgs:
         ctx.tlc_must_hold(cc.SUB, "MC_ChainIndex", cfg="MC_ChainIndex_%s.cfg" % c, workers=4, timeout=900 if q else 3000,
                           label="admission + lookups, exhaustive")
@@ -40,12 +40,14 @@ def run(ctx):
         return
     cc.binding_demo(ctx, runs[0], "c09-cons", [
         ("refusal-reported-as-acceptance", cc.mut_verdict(False)), ("acceptance-reported-as-refusal", cc.mut_verdict(True)),
-        ("adopt-refusal-flipped", cc.mut_adopt), ("add-deleted", cc.mut_delete("Add"))])
+        ("adopt-refusal-flipped", cc.mut_adopt), ("adopt-class-later-for-bad", cc.mut_adopt_class),
+        ("pool-class-flipped", cc.mut_pool), ("add-deleted", cc.mut_delete("Add"))])
+    cc.invariant_demo(ctx, runs[0], "c09-cons")
 
     # 3a. repository level: 104..130-block chains with an equally long side branch; every tx looked up from every block
     #     as head, i.e. through the recent-ancestor scan (head - ref < 100) and through filter + index (>= 100)
     repo_stats = []
-    runs, stats, how = cc.record(ctx, "chainindex", ["-mode", "long"], "long", 2 if q else 20)
+    runs, stats, how = cc.record(ctx, "chainindex", ["-mode", "long"], "long", 1 if q else 20)
     acc = cc.validate_runs(ctx, runs, stats, "long", how, batch=4)
     repo_stats += [stats[i] for i in acc]
     # ~270-block double chain: the same txs at heights 126..131 on one branch and 254..259 on the other (both sides of the
@@ -91,7 +93,26 @@ def run(ctx):
                                    "dupChecksIndexedPath"], prefix="cons_")
     cc.sum_stats(ctx, repo_stats, ["lookups", "lookupsRecentPath", "lookupsIndexedPath", "txsFoundByBothPaths", "reincluded"],
                  prefix="repo_")
-    cc.sum_stats(ctx, cons_stats, ["lookups", "lookupsIndexedPath"], prefix="cons_")
+    cc.sum_stats(ctx, cons_stats, ["lookups", "lookupsIndexedPath", "poolEvaluations", "windowsBeyond32Bits", "restarts"], prefix="cons_")
+    cc.sum_stats(ctx, repo_stats, ["reopens", "plantedIndexKeys"], prefix="repo_")
+    adopt_classes = {}
+    for st in cons_stats:
+        for k, v in st.get("adoptClasses", {}).items():
+            adopt_classes[k] = adopt_classes.get(k, 0) + v
+    ctx.cov["adopt_refusal_classes"] = adopt_classes
+    cc.stalled(ctx)
+    if cons_stats and not ctx.violations:
+        for k in ("cons_windowsBeyond32Bits", "cons_restarts", "cons_poolEvaluations"):
+            if ctx.cov[k] == 0:
+                raise Infra("the consensus-level runs never produced %s" % k)
+        for k in ("state-dependent", "dep-on-state-dependent"):
+            if classes.get(k, 0) == 0:
+                raise Infra("no candidate of class %s" % k)
+        for k in ("bad", "later", "known", "never"):
+            if adopt_classes.get(k, 0) == 0:
+                raise Infra("the packer never refused a tx with class %s" % k)
+    if repo_stats and not ctx.violations and (ctx.cov["repo_reopens"] == 0 or ctx.cov["repo_plantedIndexKeys"] == 0):
+        raise Infra("the repository-level runs did not re-open the store / plant the foreign index keys")
     ctx.cov["exhaustive"] = False
     if repo_stats and ctx.cov["repo_txsFoundByBothPaths"] == 0 and not ctx.violations:
         raise Infra("no transaction was found through both lookup paths: the long runs do not cross the 100-block boundary")
@@ -99,9 +120,15 @@ def run(ctx):
         raise Infra("no candidate re-included a tx more than 100 blocks above its ref: the indexed path was not exercised at consensus level")
     ctx.assumptions += [
         "hashes/signatures are injective oracles; tx and block ids are logged facts",
-        "colliding 8-byte id prefixes cannot be mined for real ids: the filter-key collision is covered in the design model only; "
-        "on the real code both lookup paths are exercised for the SAME txs (heads / parents closer than 100 blocks to the ref and "
-        "beyond), counted in repo_txsFoundByBothPaths / cons_dupChecks*",
+        "colliding 8-byte id prefixes cannot be mined for real ids: in the long runs a filter key of a never-included tx and an "
+        "index entry of a foreign id sharing its 8 bytes are written straight into chain.txi through the kv store (Plant event); "
+        "both lookup paths are exercised for the SAME txs (heads / parents closer than 100 blocks to the ref and beyond), "
+        "counted in repo_txsFoundByBothPaths / cons_dupChecks*",
+        "block refs and expirations are logged saturated at 2^31-1 (TLC integers); the window is compared as n - ref <= exp, "
+        "which is exact while heights stay below 2^31",
+        "the pool's rule is exercised as txpool.TxObject.Evaluate against the parent as head (the pool object itself, its "
+        "limits and housekeeping are C18's); a state-dependent tx (O pays more than its genesis balance to itself) reverts "
+        "unless a 10-wei funding tx precedes it on the same chain",
         "forged candidates are valid except possibly for tx admission: header of a real empty block in the same slot, txs executed "
         "by the real runtime on that block's state, roots from that execution (self-test per run: for admissible txs the forged "
         "block has the id of the real packer's block); a refusal for any reason outside the six tx rules is reported as harness trouble",
